@@ -21,6 +21,25 @@ CHECKS = {
         "note": "Angle membership within 1e-9 of an arc end (other than the exact k=0 ends) is a don't-care; "
                 "arithmetic images are compared with the same float operation applied to the ends.",
     },
+    "C13": {
+        "technique": "property-based testing: Hypothesis-generated ScenarioID field combinations and solutions against "
+                     "an own reference printer/grammar regex and a print->parse->print round-trip",
+        "text": "Tens of thousands of ids over the full product of the seven fields (all ISO alpha-3 codes, multi-digit "
+                "numbers, prediction lists, defaults filled by the constructor) and thousands of single/cooperative "
+                "solutions per run. Exploration only.",
+        "note": "Reference printer and grammar regex are written from the documented format; one-element prediction "
+                "lists are outside the domain.",
+    },
+    "C14": {
+        "technique": "property-based testing: Hypothesis-generated solutions; round-trip oracle (float.hex), "
+                     "independent lxml decoding against a documented element table, metamorphic state permutation, "
+                     "XSD validation",
+        "text": "Thousands of solutions per run over model x type x cost x trajectory kind with floats of any finite "
+                "magnitude, ints and numpy scalars, optional metadata; every value compared bit-exactly with the recipe "
+                "and located under its documented element name. Exploration only.",
+        "note": "Trusts lxml's XSD validator and the own copy of the element table (written from the shipped XSD and "
+                "the vehicle-model documentation).",
+    },
 }
 
 NOT_APPLICABLE = [{"property_id": p, "reason": "check not built yet (work in progress; will be claimed once its "
